@@ -140,9 +140,13 @@ func (llb *Buffer) Peek(maxBytes int) ([][]byte, error) {
 
 // PeekWithBytes is like Peek but accepts [][]byte and puts them onto head.
 func (llb *Buffer) PeekWithBytes(maxBytes int, bs ...[]byte) ([][]byte, error) {
+	var extra int
+	for _, b := range bs {
+		extra += len(b)
+	}
 	if maxBytes <= 0 || maxBytes == math.MaxInt32 {
 		maxBytes = math.MaxInt32
-	} else if maxBytes > llb.Buffered() {
+	} else if maxBytes > llb.Buffered()+extra {
 		return nil, io.ErrShortBuffer
 	}
 	var bss [][]byte
